@@ -430,6 +430,10 @@ pub async fn pools_scenario(nl: usize, nd: usize, grace_s: u64, out: &mut ScOut)
     let (_tx, rx) = mpsc::unbounded_channel();
     let transport = ScriptedTransport { shared: shared.clone(), rx: Mutex::new(Some(rx)) };
     let mut cfg = server_config(30_000, seed_addr);
+    if (nl + nd) % 2 == 1 {
+        // the node's own address is also configured as a seed (a common deployment: one seed list for everybody)
+        cfg.seed_nodes.push(self_addr.to_string());
+    }
     cfg.failure_detector_config = FailureDetectorConfig { phi_threshold: 3.0, sampling_window_size: 10, max_interval: Duration::from_secs(2), initial_interval: Duration::from_secs(1), dead_node_grace_period: Duration::from_secs(grace_s) };
     let handle = match spawn_chitchat(cfg, vec![], &transport).await {
         Ok(h) => h,
